@@ -19,7 +19,11 @@ Lemma xop_of_cases x op : xop_of x = Some op ->
   (x_code x = 11 /\ op = XReadFrom (x_off x) (x_a x) (x_b x)) \/
   (x_code x = 12 /\ op = XWriteTo (x_off x) (x_a x)) \/
   (x_code x = 13 /\ op = XSliceCopyFrom (x_off x) (x_a x) (x_b x) (x_c x) /\ x_b x <> 0) \/
-  (x_code x = 14 /\ op = XSliceCopyTo (x_off x) (x_a x) (x_b x) (x_c x) /\ x_b x <> 0).
+  (x_code x = 14 /\ op = XSliceCopyTo (x_off x) (x_a x) (x_b x) (x_c x) /\ x_b x <> 0) \/
+  (x_code x = 15 /\ op = XReadFromFd (x_off x) (x_a x) (x_b x)) \/
+  (x_code x = 16 /\ op = XReadExactFromFd (x_off x) (x_a x)) \/
+  (x_code x = 17 /\ op = XWriteToFd (x_off x) (x_a x)) \/
+  (x_code x = 18 /\ op = XWriteAllToFd (x_off x) (x_a x)).
 Proof.
   unfold xop_of. intros H. destruct (x_code x) as [|p].
   - inversion H; subst; clear H. pick.
@@ -29,7 +33,7 @@ Proof.
       inversion H; subst; clear H; pick.
 Qed.
 
-Ltac xcases X := destruct (xop_of_cases _ _ X) as [[K ->] | [[K ->] | [[K ->] | [[K ->] | [[K ->] | [[K ->] | [[K ->] | [[K ->] | [[K ->] | [[K ->] | [[K ->] | [[K ->] | [[K ->] | [[K [-> NZ]] | [K [-> NZ]]]]]]]]]]]]]]]].
+Ltac xcases X := destruct (xop_of_cases _ _ X) as [[K ->] | [[K ->] | [[K ->] | [[K ->] | [[K ->] | [[K ->] | [[K ->] | [[K ->] | [[K ->] | [[K ->] | [[K ->] | [[K ->] | [[K ->] | [[K [-> NZ]] | [[K [-> NZ]] | [[K ->] | [[K ->] | [[K ->] | [K ->]]]]]]]]]]]]]]]]]]].
 
 (* the two shapes of the slice copy plan *)
 Lemma slice_copy_plan m size off len t k (wr : bool) : t <> 0 -> size <= ISZ_MAX ->
@@ -68,6 +72,10 @@ Lemma plan_touched m size x op goff glen wr toff tlen : size <= ISZ_MAX ->
 Proof.
   intros SZ X. unfold touched.
   xcases X; rewrite K; cbn [op_plan].
+  16,18: destruct (size <? x_off x); [discriminate|]; intros HH; inv_val; reflexivity.
+  16,17: destruct (end_offset size (x_off x) (x_a x)) eqn:E; [|discriminate]; apply end_offset_Some in E;
+       destruct (x_a x =? 0); [discriminate|]; intros HH; inv_val; cbn [orb];
+       destruct (N.leb_spec (x_off x + x_a x) size) as [LL|LL]; [reflexivity|lia].
   1,2: destruct (x_a x =? 0); cbn [orb]; [discriminate|]; destruct (size <=? x_off x); [discriminate|];
        intros HH; inv_val; rewrite N.min_comm; reflexivity.
   1,2,3: destruct (end_offset size (x_off x) (x_a x)) eqn:E; [|discriminate]; apply end_offset_Some in E;
@@ -104,6 +112,9 @@ Lemma plan_not_val_touched m size x op : size <= ISZ_MAX ->
 Proof.
   intros SZ X NV. unfold touched.
   xcases X; rewrite K; cbn [op_plan] in NV.
+  16,18: exfalso; destruct (size <? x_off x); eapply NV; reflexivity.
+  16,17: exfalso; destruct (end_offset size (x_off x) (x_a x)); [|eapply NV; reflexivity];
+       destruct (x_a x =? 0); eapply NV; reflexivity.
   1,2: exfalso; destruct (x_a x =? 0); [eapply NV; reflexivity|]; destruct (size <=? x_off x); eapply NV; reflexivity.
   1,2,3: exfalso; destruct (end_offset size (x_off x) (x_a x)); eapply NV; reflexivity.
   5: exfalso; destruct (end_offset size (x_off x) (x_a x)); [|eapply NV; reflexivity];
@@ -137,6 +148,9 @@ Lemma plan_shape m size x op p : size <= ISZ_MAX -> xop_of x = Some op -> op_pla
 Proof.
   intros SZ X. unfold touched.
   xcases X; rewrite K; cbn [op_plan].
+  16,18: destruct (size <? x_off x); intros HH; inv_val; exact I.
+  16,17: destruct (end_offset size (x_off x) (x_a x)); [|intros HH; inv_val; exact I];
+       destruct (x_a x =? 0); intros HH; inv_val; [reflexivity|exact I].
   1,2: destruct (x_a x =? 0); [intros HH; inv_val; reflexivity|]; destruct (size <=? x_off x); intros HH; inv_val; exact I.
   1,2,3: destruct (end_offset size (x_off x) (x_a x)); intros HH; inv_val; exact I.
   5: destruct (end_offset size (x_off x) (x_a x)); [|intros HH; inv_val; exact I];
